@@ -780,8 +780,12 @@ package larking
 //@ spec OffersOk(m) = m.opts.codecs != nil && maphas(m.opts.codecs, "application/json") && mapval(m.opts.codecs, "application/json") != nil
 //@      && (forall x :: {at(m.opts.contentTypeOffers, x)} off(m.opts.contentTypeOffers) <= x && x < off(m.opts.contentTypeOffers) + len(m.opts.contentTypeOffers)
 //@            ==> maphas(m.opts.codecs, at(m.opts.contentTypeOffers, x)) && mapval(m.opts.codecs, at(m.opts.contentTypeOffers, x)) != nil)
+//@ det StatusCodeOf "(*status.Status).Code" int
+// (the HTTP status written for an error is the mapped status of its code, on both
+// the Twirp and the negotiated path)
 //@ func (*Mux).encError serves C05 C09 partial panic ghost nil[c.Marshal
 //@   requires m != nil && w != nil && r != nil
+//@   assert atcall `w.WriteHeader(` [error-status-is-the-mapped-code C05] (StatusCodeOf(s) <= 16 ==> arg0 == HTTPOf(StatusCodeOf(s))) && (StatusCodeOf(s) > 16 ==> arg0 == 500)
 //@   requires [registry] OffersOk(m)
 //@   witness verifWitnessEncError
 
